@@ -217,12 +217,16 @@ class Pool:
         return out
 
     def close(self):
-        for p in list(getattr(self.ex, '_processes', {}).values()):
-            try:
-                p.kill()
-            except Exception:
-                pass
-        self.ex.shutdown(wait=False, cancel_futures=True)
+        """idempotent"""
+        try:
+            for p in list((getattr(self.ex, '_processes', None) or {}).values()):
+                try:
+                    p.kill()
+                except Exception:
+                    pass
+            self.ex.shutdown(wait=False, cancel_futures=True)
+        except Exception:
+            pass
 
 
 # ----------------------------------------------------------------------------------------------
